@@ -525,6 +525,9 @@ struct GraphIn {
     cascade: u64,
     locks: Option<Vec<(u64, u64)>>,
     queries: Vec<(u64, u64)>,
+    /// ms that pass (clock hook) between the last add_wait and the detection round: detection reads the recorded
+    /// relations, however long ago they were recorded
+    delay: u64,
 }
 
 fn graph_case(gi: &GraphIn, dist: &mut Dist) -> (String, String, bool) {
@@ -565,8 +568,21 @@ fn graph_case(gi: &GraphIn, dist: &mut Dist) -> (String, String, bool) {
         .collect();
     let ws: Vec<String> = nodes.iter().filter_map(|x| g.get_wait_start(*x).map(|t| format!("({x}, {t})"))).collect();
     let pr: Vec<String> = nodes.iter().filter_map(|x| g.get_priority(*x).map(|t| format!("({x}, {t})"))).collect();
+    verif_clock::set(Some(T0 + gi.edges.len() as u64 + gi.delay));
     let cycles = g.detect_cycles();
     let infos = det.detect();
+    // the detection round only observes: the recorded relations afterwards
+    let rec_after: Vec<String> = nodes
+        .iter()
+        .map(|x| {
+            let mut v: Vec<u64> = g.waiting_for(*x).into_iter().collect();
+            v.sort();
+            format!("({x}, {})", ln(&v))
+        })
+        .collect();
+    if gi.delay > 30000 {
+        dist.hit("graph.detect_after_edge_ttl");
+    }
     let would: Vec<String> = gi.queries.iter().map(|(w, h)| b(g.would_create_cycle(*w, *h))).collect();
     verif_clock::set(None);
     dist.hit(if cycles.is_empty() { "graph.acyclic" } else { "graph.cyclic" });
@@ -587,13 +603,14 @@ fn graph_case(gi: &GraphIn, dist: &mut Dist) -> (String, String, bool) {
         list(gi.queries.iter().map(|(w, h)| format!("({w}, {h})")))
     );
     let gout = format!(
-        "(GOut {} {} {} {} {} {})",
+        "(GOut {} {} {} {} {} {} {})",
         list(rec),
         list(ws),
         list(pr),
         list(cycles.iter().map(|c| ln(c))),
         list(infos.iter().map(|i| format!("({}, {})", ln(&i.cycle), i.victim_tx_id))),
-        list(would)
+        list(would),
+        list(rec_after)
     );
     (format!("({gin}, {gout})"), format!("{gi:?}"), !cycles.is_empty())
 }
@@ -612,6 +629,7 @@ fn gen_graph(r: &mut Rng, nn: u64, ne: usize) -> GraphIn {
         cascade: *r.pick(&[3u64, 3, 0, 1]),
         locks: if policy == 3 && r.chance(2, 3) { Some((1..=nn).map(|t| (t, r.below(4))).collect()) } else { None },
         queries: (0..3).map(|_| (r.range(1, nn), r.range(1, nn))).collect(),
+        delay: *r.pick(&[0u64, 0, 1, 29999, 30001, 100000]),
     }
 }
 
@@ -884,11 +902,23 @@ fn main() {
     let exhaustive_n = if args.thorough() { 4 } else { 3 };
     for nn in 2..=exhaustive_n {
         for edges in all_graphs(nn) {
-            let gi = GraphIn { edges, maxe: 0, enabled: true, policy: rng.below(3), max_cycle: 100, cascade: 3, locks: None, queries: vec![(1, 2), (2, 1)] };
+            let gi = GraphIn { edges, maxe: 0, enabled: true, policy: rng.below(3), max_cycle: 100, cascade: 3, locks: None, queries: vec![(1, 2), (2, 1)], delay: *rng.pick(&[0u64, 30001]) };
             let (t, h, nt) = graph_case(&gi, &mut dist);
             graph.push(&t, &h, nt);
             dist.hit("graph.exhaustive");
         }
+    }
+    {
+        // a cycle that has been in the graph for longer than edge_ttl_ms (30 s) plus an innocent waiter behind it
+        let gi = GraphIn {
+            edges: vec![(1, 2, None), (2, 3, None), (3, 1, None), (4, 1, None)],
+            maxe: 0, enabled: true, policy: 0, max_cycle: 100, cascade: 3, locks: None, queries: vec![(1, 2), (4, 3)], delay: 30001,
+        };
+        let (t, _h, _nt) = graph_case(&gi, &mut dist);
+        graph.push(&t, "corpus old deadlock: 1->2->3->1 and 4->1 recorded, 30001 ms pass, detect() must still report the cycle and leave the relations alone", true);
+        let gi = GraphIn { edges: vec![(1, 2, None), (3, 2, Some(1))], maxe: 0, enabled: true, policy: 1, max_cycle: 100, cascade: 3, locks: None, queries: vec![(2, 1)], delay: 100000 };
+        let (t, _h, _nt) = graph_case(&gi, &mut dist);
+        graph.push(&t, "corpus old waiters, no cycle: 1->2, 3->2 recorded, 100 s pass, detect() reports nothing and must leave the relations alone", true);
     }
     for _ in 0..args.budget(400, 20000) {
         let nn = rng.range(2, 8);
